@@ -307,11 +307,18 @@ impl C19 {
     }
     // foetus spirit of the month (正月..十二月), none for a leap month
     let fm = ["占房床", "占户窗", "占门堂", "占厨灶", "占房床", "占床仓", "占碓磨", "占厕户", "占门房", "占房床", "占灶炉", "占房床"];
-    for m in 1..=12usize {
-      let lm = LunarMonth::from_ym(2023, m as isize);
-      c.eq("misc", "fetus_month", format!("lunar month {}", m), format!("{:?}", Some(fm[m - 1].to_string())), format!("{:?}", FetusMonth::from_lunar_month(lm).map(|x| x.get_name())));
+    // (years with a leap month early, in the middle, late, and none: the spirit goes with the month NUMBER)
+    for y in [2023isize, 2020, 2024, 2033, 1984, 37, 9998] {
+      for m in 1..=12usize {
+        let lm = LunarMonth::from_ym(y, m as isize);
+        c.eq("misc", "fetus_month", format!("lunar month {} of {}", m, y), format!("{:?}", Some(fm[m - 1].to_string())), format!("{:?}", FetusMonth::from_lunar_month(lm.clone()).map(|x| x.get_name())));
+        c.eq("misc", "fetus_month_via_month", format!("lunar month {} of {}", m, y), format!("{:?}", Some(fm[m - 1].to_string())), format!("{:?}", lm.get_fetus().map(|x| x.get_name())));
+      }
+      let lp = tyme4rs::tyme::lunar::LunarYear::from_year(y).get_leap_month();
+      if lp > 0 {
+        c.eq("misc", "fetus_month_leap", format!("leap month {} of {}", lp, y), "None".into(), format!("{:?}", FetusMonth::from_lunar_month(LunarMonth::from_ym(y, -(lp as isize))).map(|x| x.get_name())));
+      }
     }
-    c.eq("misc", "fetus_month_leap", "leap month 2 of 2023".into(), "None".into(), format!("{:?}", FetusMonth::from_lunar_month(LunarMonth::from_ym(2023, -2)).map(|x| x.get_name())));
   }
 
   /// a = [month, day]: zodiac sign by the 12 date intervals
